@@ -325,70 +325,41 @@ unsafe fn write_all_sub_paths(
     raw: *const u8,
 ) -> core::result::Result<(), rusl::Error> {
     let len = buf.len();
-    let mut it = 1;
-    loop {
-        // Iterate down
-        let ind = len - it;
-        if ind == 0 {
-            break;
-        }
-
-        let byte = buf[ind];
-        if byte == b'/' {
+    // Create every ancestor, shallowest first
+    for i in 1..len {
+        if buf[i] == b'/' && buf[i - 1] != b'/' {
             // Swap slash for null termination to make a valid path
-            buf[ind] = NULL_BYTE;
-
-            return match rusl::unistd::mkdir(
-                UnixStr::from_bytes_unchecked(&buf[..=ind]),
-                Mode::from(0o755),
-            ) {
-                // Successfully wrote, traverse down
-                Ok(()) => {
-                    // Replace the null byte to make a valid path concatenation
-                    buf[ind] = b'/';
-                    for i in ind + 1..len {
-                        // Found next
-                        if buf[i] == b'/' {
-                            // Swap slash for null termination to make a valid path
-                            buf[i] = NULL_BYTE;
-                            rusl::unistd::mkdir(
-                                UnixStr::from_bytes_unchecked(&buf[..=i]),
-                                Mode::from(0o755),
-                            )?;
-                            // Swap back to continue down
-                            buf[i] = b'/';
-                        }
-                    }
-                    // if we end on a slash we don't have to write the last part
-                    if unsafe { raw.add(len - 1).read() } == b'/' {
-                        return Ok(());
-                    }
-                    // We know the actual length is len + 1 and null terminated, try write full
-                    rusl::unistd::mkdir(
-                        UnixStr::from_bytes_unchecked(core::slice::from_raw_parts(raw, len + 1)),
-                        Mode::from(0o755),
-                    )?;
-                    Ok(())
-                }
-                Err(e) => {
-                    if let Some(code) = e.code {
-                        if code == Errno::ENOENT {
-                            it += 1;
-                            // Put slash back, only way we end up here is if we tried to write
-                            // previously replacing the slash with a null-byte
-                            buf[ind] = b'/';
-                            continue;
-                        } else if code == Errno::EEXIST {
-                            return Ok(());
-                        }
-                    }
-                    Err(e)
-                }
-            };
+            buf[i] = NULL_BYTE;
+            let res = mkdir_unless_dir_exists(UnixStr::from_bytes_unchecked(&buf[..=i]));
+            // Swap back to continue down
+            buf[i] = b'/';
+            res?;
         }
-        it += 1;
     }
-    Ok(())
+    // if we end on a slash we don't have to write the last part
+    if buf[len - 1] == b'/' {
+        return Ok(());
+    }
+    // We know the actual length is len + 1 and null terminated, try write full
+    mkdir_unless_dir_exists(UnixStr::from_bytes_unchecked(
+        core::slice::from_raw_parts(raw, len + 1),
+    ))
+}
+
+/// Creates the directory, something already being there is only fine if it's a directory
+#[inline]
+fn mkdir_unless_dir_exists(path: &UnixStr) -> core::result::Result<(), rusl::Error> {
+    match rusl::unistd::mkdir(path, Mode::from(0o755)) {
+        Err(e) if e.code == Some(Errno::EEXIST) => {
+            let stat = rusl::unistd::stat(path)?;
+            if Mode::from(stat.st_mode) & Mode::S_IFMT == Mode::S_IFDIR {
+                Ok(())
+            } else {
+                Err(e)
+            }
+        }
+        res => res,
+    }
 }
 
 pub struct Directory(OwnedFd);
